@@ -546,7 +546,11 @@ class ServiceDiscoveryProtocol(SOMEIPDatagramProtocol):
                         entry,
                     )
                     continue
-                self.announcer.handle_subscribe(entry, addr)
+                # deferred like reboot_detected() and offers, so that a reboot revealed
+                # by this message is applied before its Subscribe entries
+                asyncio.get_event_loop().call_soon(
+                    self.announcer.handle_subscribe, entry, addr
+                )
                 continue
 
 
